@@ -231,6 +231,11 @@ func (w *worker) runSel(c *selCase, raw []byte) {
 		w.checkOrder(c, canon, kinds, raw)
 		return
 	}
+	if (P["C01"] || P["C08"] || P["C03"]) && c.Doc.HasSharing() {
+		// the same JSON value assembled from shared parts (equal sub-containers are one Go object)
+		modes = append(modes, Mode{Share: true})
+		w.count("documents-with-shared-parts", 1)
+	}
 	var canonResp []resp
 	for si := range c.Texts {
 		sp := &c.Texts[si]
@@ -394,7 +399,7 @@ func (w *worker) runSel(c *selCase, raw []byte) {
 				w.checkAccessors(c, text, m, kinds, raw)
 			}
 			// ---- C08 composition (oracle-free)
-			if P["C08"] && len(c.Path.Funcs) == 0 && mi == 0 {
+			if P["C08"] && len(c.Path.Funcs) == 0 && (mi == 0 || m.Share) {
 				w.checkCompose(c, m, kinds, raw)
 			}
 		}
